@@ -1,7 +1,7 @@
 """C04 Opacity interpolation in temperature and pressure is sound everywhere."""
 import ast
 
-from sa.helpers import (guard_is, the_return, mkflow, spec, code, one, calls, bind_call, param_env,
+from sa.helpers import (holds_at, guard_is, the_return, mkflow, spec, code, one, calls, bind_call, param_env,
                         loop_matches, fmt, atom_of, unparse, unalloc, call_kw,
                         inline_calls)
 from sa.index import AnalysisError, FuncInfo
@@ -250,7 +250,7 @@ def region_obligations(ix, R):
     for e in two:
         g = e.guards[-1]
         m = want[kind(e)[1]]
-        if not guard_is(fl, g, spec(fl, "self._interp_mode == '%s'" % m), True):
+        if not holds_at(fl, e, spec(fl, "self._interp_mode == '%s'" % m)):
             why.append('%s under %s' % (kind(e)[1], g.text()))
         a = atom_of(fl, e.value)
         b = dict(pe, xg=xg)
@@ -293,7 +293,7 @@ def one_d(ix, R):
                 continue
             m = want[a.extra[0][3:]]
             g = e.guards[-1] if e.guards else None
-            if g is None or not guard_is(fl, g, spec(fl, "self._interp_mode == '%s'" % m), True):
+            if not holds_at(fl, e, spec(fl, "self._interp_mode == '%s'" % m)):
                 why.append('%s under %s' % (a.extra[0][3:], g.text() if g else 'no guard'))
             roles = ['xg[P, tmin, filt]', 'xg[P, tmax, filt]', 'T',
                      'self.temperatureGrid[tmin]', 'self.temperatureGrid[tmax]']
